@@ -525,6 +525,14 @@ def r6(rr, repo):
         pre = [n for n in fall[0].body if isinstance(n, ast.Assign) and U(n.targets[0]) == k and isinstance(n.value, ast.JoinedStr) and n.value.values and isinstance(n.value.values[0], ast.Constant)
                and str(n.value.values[0].value)[:1].isalpha() and str(n.value.values[0].value).isidentifier()]
         fb_ok = f'not {k}.isidentifier()' in parts and f'iskeyword({k})' in parts and names_covered and bool(pre) and fall[0] is [n for n in loop[0].body if isinstance(n, (ast.If, ast.Assign)) and n.lineno < max(x.lineno for x in loop[0].body)][-1]
+    # ... and the key that is stored is the key that was tested: nothing re-spells it between the fallback and the store (a first letter lower-cased in the store itself turns 'Type' / 'Class' into
+    # the reserved names the test has just let through)
+    kstores = [n for n in ast.walk(loop[0]) if isinstance(n, ast.Assign) and isinstance(n.targets[0], ast.Subscript) and U(n.targets[0].value) != k and any(isinstance(x, ast.Name) and x.id == k for x in ast.walk(n.targets[0].slice))]
+    for n in kstores:
+        rr.ob('the key is stored exactly as it left the last test (no re-spelling inside the store)', isinstance(n.targets[0].slice, ast.Name) and n.targets[0].slice.id == k, lm, n, witness=U(n.targets[0])[:80], key='normalise-stored-as-tested')
+    if fall:
+        later = [n for n in loop[0].body if isinstance(n, (ast.Assign, ast.AugAssign, ast.If)) and n.lineno > fall[0].lineno and any(isinstance(a, ast.Assign) and U(a.targets[0]) == k for a in ast.walk(n))]
+        rr.ob('nothing rebinds the key after the fallback for reserved names', not later, lm, later[0] if later else fall[0], witness=U(later[0])[:80] if later else '', key='normalise-nothing-after-fallback')
     tests_key = [n for n in loop[0].body if isinstance(n, ast.If) and any(isinstance(x, ast.Name) and x.id == k for x in ast.walk(n.test)) and any(isinstance(a, ast.Assign) and U(a.targets[0]) == k for a in ast.walk(n))]
     only_case = all('isupper()' in U(n.test) or 'islower()' in U(n.test) for n in tests_key)      # the only conditional re-spelling concerns letter case: keywords, digits, clashes pass
     judge("what is still not a usable field name (empty, leading digit, a keyword, a name the facet defines itself) is re-spelled with an identifier prefix, as the last step before the key is stored", fb_ok, (not fall and only_case) or (bool(fall) and inverted),
